@@ -698,6 +698,10 @@ pub fn run(args: &Args, rep: &mut Report) {
             if !d.is_empty() {
                 vdrop(rep, "double-drop", format!("{:?}", d));
             }
+            let g = ledger::take_garbage_drops();
+            if g > 0 {
+                vdrop(rep, "destructor-ran-on-a-slot-that-holds-no-value", format!("{} call(s)", g));
+            }
             if rep.violations.len() >= rep.max_violations {
                 break;
             }
